@@ -1,4 +1,4 @@
-HOOK_COMMITS = ["74bf6ff", "82c1591", "9aba3ab", "7b80cf4", "aa851e5", "4f43e9e", "0d9cb6c", "ac67f30", "f87827f", "49c2432", "902f705", "c680004", "8c2f76b", "4c8724e", "094947e", "99d293b", "af34f89"]
+HOOK_COMMITS = ["74bf6ff", "82c1591", "9aba3ab", "7b80cf4", "aa851e5", "4f43e9e", "0d9cb6c", "ac67f30", "f87827f", "49c2432", "902f705", "c680004", "8c2f76b", "4c8724e", "094947e", "99d293b", "af34f89", "43a3820"]
 
 ALL = ["C%02d" % i for i in range(1, 21)]
 
@@ -127,8 +127,12 @@ TEXTS = {
                design_ref="DESIGN.md section 5, C12", note=SEQ_NOTE, technique="Coq proof (int64 wrap-around modelled explicitly) + correspondence replay"),
     "C20": dict(text="Coq theorems on ghost counters placed where the code calls the recorder: each counting lookup adds exactly one to hits+misses and is a hit iff an "
                      "unexpired entry was found; each loader invocation adds exactly one to successes+failures; evictions counted exactly at automatic removals; quiet operations change nothing. "
-                     "Correspondence compares the Stats() snapshot after every operation.",
-               design_ref="DESIGN.md section 5, C20", note=SEQ_NOTE + " Concurrent histories: see C02 (counters are sums of per-action increments).", technique=SEQ_TECH),
+                     "Correspondence compares the Stats() snapshot after every operation. The striped counter behind every statistic (internal/xsync/adder.go) has a small-step model (one step per atomic load / CAS, "
+                     "any number of threads, all schedules, all probe indices) with theorems: stripes sum to the applied deltas at every moment, every invoked Add is applied exactly once or still in flight, exact at quiescence (mod 2^64); "
+                     "and for totals below 2^64: a snapshot overlapping Adds lies between the total at its invocation and at its return, and a snapshot invoked after another returned is not smaller (counters never decrease). "
+                     "Tied to adder.go by macro-step schedules (hooks between a stripe's load and its CAS and before each load of Value) replayed on the extracted model.",
+               design_ref="DESIGN.md section 5, C20 and section 0.2", note=SEQ_NOTE + " Concurrent histories: see C02 (counters are sums of per-action increments). Adder: the token pool and Fastrand only choose probe indices (inputs of the model); sync/atomic assumed sequentially consistent.",
+               technique=SEQ_TECH + " + small-step protocol model of the striped counter with an inductive invariant over all schedules, replayed hook-to-hook on adder.go"),
     "C18": dict(
         text="Coq theorems over an executable transcription of sketch.go / policy.admit / RoundUpPowerOf264 on 64-bit words: "
              "for every raw key hash, every table length 8*2^k and every recording sequence inside a sampling period the estimate is "
